@@ -22,7 +22,9 @@ fn mk_list(items: Vec<Value<f32>>, tail: Option<Value<f32>>) -> Value<f32> {
 }
 
 const SYMS: &[&str] = &["a", "b", "foo", "x1", "list->vector", "set!", "+", "-", "...", "<=?", "a.b", "hello-world", "q", "quote", "quote", "lambda", "define"];
-const CHARS: &[char] = &['a', 'Z', '0', '(', ')', ';', '"', '\\', '#', ' ', '|', '\'', 'λ', '.', '~'];
+const CHARS: &[char] = &[
+    'a', 'Z', '0', '(', ')', ';', '"', '\\', '#', ' ', '|', '\'', 'λ', '.', '~', 'x', 't', '\u{0}', '\u{7}', '\u{8}', '\u{1b}', '\u{7f}', '\t', '\n',
+];
 
 pub fn interesting_reals() -> Vec<f32> {
     let mut v = vec![
@@ -295,6 +297,8 @@ pub fn run(ctx: &Ctx) {
          signs incl. unreduced ones and the C09 grid, finite reals of every binary32 class, characters, plain symbols, (), \
          proper/improper lists, vectors): Display text -> evaluate (quote TEXT) -> structural comparison (value and \
          exactness), plus the shape clauses (single spaces, dotted tail only when improper) and pairwise injectivity; \
+         the display procedure itself is observed on the standard output of the built binary \
+         running (display 'V) for batches of such values (half of them bare atoms), each chunk read back and compared; \
          reals additionally through Number::to_string -> Lexer -> read_literal in bulk (thorough: every finite binary32). \
          Non-trivial = depth >= 2 with >= 2 number classes, or a real printed with an exponent.",
     );
@@ -315,8 +319,12 @@ pub fn run(ctx: &Ctx) {
         })
     });
 
-    let cases = ctx.tier.pick(20_000, 300_000);
+    let cases = ctx.tier.pick(50_000, 300_000);
     ctx.random("trees", cases, 200, tree_case);
+
+    // the display procedure itself, through the built binary
+    let batches = ctx.tier.pick(300, 3_000);
+    ctx.random("display-procedure", batches, 40, display_procedure_case);
 
     // bulk reals
     if !ctx.skip_sub("reals-bulk") && ctx.replay.is_none() {
@@ -338,6 +346,69 @@ pub fn run(ctx: &Ctx) {
 
 thread_local! {
     static REALS: Vec<f32> = interesting_reals();
+}
+
+const SEP: &str = "\n~~rv-sep~~\n";
+
+/// the display *procedure*, observed on the standard output of the built binary running (display 'V) for a batch of values
+pub fn display_procedure_case(ch: &mut Chooser) -> Report {
+    let n = 8 + ch.below(25);
+    let values: Vec<Value<f32>> = REALS.with(|r| {
+        (0..n)
+            .map(|_| {
+                // a good share of bare atoms: the value handed to display is then not inside any list or vector
+                let depth = if ch.chance(1, 2) { 0 } else { 1 + ch.below(3) as u32 };
+                gen_value(ch, depth, r)
+            })
+            .collect()
+    });
+    let texts: Vec<String> = values.iter().map(|v| format!("{}", v)).collect();
+    let mut program = String::from("(import (scheme base) (scheme write))\n");
+    for t in &texts {
+        program.push_str(&format!("(display (quote {}))\n(display \"{}\")\n", t, SEP.replace('\n', "\\n")));
+    }
+    let mut rep = Report::new(program.clone());
+    rep.nontrivial = true;
+    rep.label("display-procedure");
+    let dir = std::env::temp_dir().join(format!("rv-c16-{}-{:?}", std::process::id(), std::thread::current().id()));
+    let _ = std::fs::create_dir_all(&dir);
+    let file = dir.join("values.scm");
+    std::fs::write(&file, &program).unwrap();
+    let r = crate::checks::c17::run_binary(&[file.to_str().unwrap()], &dir, None);
+    let _ = std::fs::remove_dir_all(&dir);
+    if r.code != Some(0) {
+        // the quoted texts were produced by Display; that they read back is the business of the other sub-checks
+        rep.skipped = Some("program-rejected".into());
+        rep.note = r.stderr.chars().take(200).collect();
+        return rep;
+    }
+    let chunks: Vec<&str> = r.stdout.split(SEP).collect();
+    if chunks.len() != values.len() + 1 {
+        rep.fail("display-output-count", format!("{} values displayed, {} chunks of output", values.len(), chunks.len() - 1));
+        return rep;
+    }
+    with_ns(|ns, _| {
+        for (v, chunk) in values.iter().zip(chunks.iter()) {
+            let model = snapshot(v);
+            if has_noncanonical_ratio(&model).is_some() {
+                continue;
+            }
+            let back = with_fresh_eval(ns, &format!("(quote {})", chunk));
+            match &back {
+                Outcome::Value(b) if b.equiv(&model) => {}
+                other => {
+                    let mut classes = vec![];
+                    let depth = depth_and_classes(&model, &mut classes);
+                    rep.fail(
+                        if depth == 0 { "display-procedure-atom-differs" } else { "display-procedure-differs" },
+                        format!("(display '{}) wrote {:?}, which reads back as {}", model.show(), chunk, other.show()),
+                    );
+                    break;
+                }
+            }
+        }
+    });
+    rep
 }
 
 pub fn tree_case(ch: &mut Chooser) -> Report {
@@ -378,7 +449,7 @@ fn bulk_reals(ctx: &Ctx) {
     let exhaustive = ctx.tier == Tier::Thorough;
     // quick: 2^21 values spread over the whole bit space with a seed-dependent offset
     let total: u64 = 1 << 32;
-    let stride: u64 = if exhaustive { 1 } else { 2048 };
+    let stride: u64 = if exhaustive { 1 } else { 512 };
     let offset = if exhaustive { 0 } else { ctx.seed.wrapping_mul(0x9e3779b97f4a7c15) % stride };
     let evals = AtomicU64::new(0);
     let nontrivial = AtomicU64::new(0);
@@ -420,7 +491,7 @@ fn bulk_reals(ctx: &Ctx) {
         sub,
         evals.load(Ordering::SeqCst),
         nontrivial.load(Ordering::SeqCst),
-        vec![serde_json::json!("every 2048th (quick) / every (thorough) finite binary32 bit pattern: to_string -> lexer -> read_literal; non-trivial = mantissa bits not all zero")],
+        vec![serde_json::json!("every 512th (quick) / every (thorough) finite binary32 bit pattern: to_string -> lexer -> read_literal; non-trivial = mantissa bits not all zero")],
         exhaustive,
     );
 }
